@@ -1,0 +1,10 @@
+//go:build verif
+// +build verif
+
+package expiration
+
+// VerifNewSkipList returns the skip-list implementation of List (not reachable through NewList).
+func VerifNewSkipList() List { return newSkipList() }
+
+// VerifNewPQList returns the heap-of-buckets implementation of List.
+func VerifNewPQList() List { return newPQList() }
